@@ -5,7 +5,8 @@ from concurrent.futures import ThreadPoolExecutor
 VERIF = os.path.dirname(os.path.dirname(os.path.abspath(__file__)))
 REPO = os.environ.get("VERIF_REPO", "/repo")
 COQ = os.path.join(VERIF, "coq")
-BUILD = os.path.join(VERIF, "build")
+import hashlib
+BUILD = os.path.join(VERIF, "build") if REPO == "/repo" else os.path.join(VERIF, "build", "alt-" + hashlib.sha1(REPO.encode()).hexdigest()[:10])
 HARNESS = os.path.join(VERIF, "harness")
 EVID = os.path.join(VERIF, "evidence")
 REPLAYS = os.path.join(VERIF, "replays")
@@ -42,9 +43,10 @@ def go_env():
 
 
 class Lock:
-    def __init__(self, name):
-        os.makedirs(BUILD, exist_ok=True)
-        self.path = os.path.join(BUILD, name)
+    def __init__(self, name, shared=False):
+        d = os.path.join(VERIF, "build") if shared else BUILD
+        os.makedirs(d, exist_ok=True)
+        self.path = os.path.join(d, name)
 
     def __enter__(self):
         self.f = open(self.path, "w")
@@ -76,16 +78,17 @@ def write_coqproject():
         open(path, "w").write(txt)
 
 
-def coq_make():
-    """Full .vo build (incremental).  Returns (ok, log)."""
-    with Lock(".coq.lock"):
+def coq_make(targets=None):
+    """Full .vo build (incremental) of the whole development, or of the given .vo targets and
+    everything they depend on.  Returns (ok, log)."""
+    with Lock(".coq.lock", shared=True):
         write_coqproject()
         if not os.path.exists(os.path.join(COQ, "Makefile")) or \
                 os.path.getmtime(os.path.join(COQ, "Makefile")) < os.path.getmtime(os.path.join(COQ, "_CoqProject")):
             rc, out = run(["coq_makefile", "-f", "_CoqProject", "-o", "Makefile"], cwd=COQ)
             if rc != 0:
                 return False, out
-        rc, out = run(["timeout", "3000", "make", "-j%d" % NCPU], cwd=COQ, timeout=3100)
+        rc, out = run(["timeout", "3000", "make", "-j%d" % NCPU] + (list(targets) if targets else ["-k"]), cwd=COQ, timeout=3100)
         return rc == 0, out
 
 
@@ -101,7 +104,7 @@ def forbidden_scan():
     return bad
 
 
-def proof_leg(pid):
+def proof_leg(pid, extra_targets=()):
     """Returns dict(ok, obligations, discharged, theorems, failures[], log)."""
     res = dict(ok=False, obligations=0, discharged=0, theorems=[], failures=[], axioms=[])
     prop_v = os.path.join(COQ, "Props", pid + ".v")
@@ -115,7 +118,7 @@ def proof_leg(pid):
     bad = forbidden_scan()
     if bad:
         res["failures"].append("forbidden constructs: " + "; ".join(bad[:5]))
-    ok, log = coq_make()
+    ok, log = coq_make(["Props/%s.vo" % pid] + list(extra_targets))
     res["make_log"] = log[-3000:]
     if not ok:
         m = re.findall(r'File "([^"]+)", line (\d+)[^\n]*\n(Error:[^\n]*(?:\n[^\n]+){0,6})', log)
@@ -161,12 +164,15 @@ def write_overlay():
         if m:
             repl[os.path.join(REPO, m.group(1))] = f
     for d in sorted(os.listdir(HARNESS)):
-        if d == "shims":
+        if d in ("shims", "common"):
             continue
         dp = os.path.join(HARNESS, d)
         if os.path.isdir(dp):
             for f in sorted(glob.glob(os.path.join(dp, "*.go"))):
                 repl[os.path.join(REPO, "internal", "verifharness", d, os.path.basename(f))] = f
+            # the common driver framework is compiled into every binary
+            for f in sorted(glob.glob(os.path.join(HARNESS, "common", "*.go"))):
+                repl[os.path.join(REPO, "internal", "verifharness", d, "zz_common_" + os.path.basename(f))] = f
     path = os.path.join(BUILD, "overlay.json")
     tmp = path + ".%d" % os.getpid()
     json.dump({"Replace": repl}, open(tmp, "w"), indent=1)
@@ -176,7 +182,7 @@ def write_overlay():
 
 def go_build(target="zunit", race=False):
     """Builds the harness binary from /repo's CURRENT working tree. Returns (ok, path, log)."""
-    with Lock(".go.lock"):
+    with Lock(".go.%s.lock" % target):
         ov = write_overlay()
         outp = os.path.join(BUILD, target + ("-race" if race else ""))
         cmd = ["go", "build", "-tags", "verif", "-overlay", ov, "-o", outp]
